@@ -70,6 +70,10 @@ class VisitorModel:
                     if ch and len(ch) == 2 and ch[1].startswith("on_"):
                         calls.append((ch[1], c))
             self.finish[cname] = calls
+        if not any(self.finish.values()):
+            # the end callbacks are no longer issued by the state classes: who delivers which end callback for which kind of
+            # block is then decided somewhere this model does not read
+            raise AnalysisError("anchor vanished: the _finish methods of the block states (the end callbacks are delivered some other way; not modelled)")
 
     def start_callbacks(self) -> List[str]:
         return sorted(n for n in self.callbacks if n.endswith("_start") and n != "on_parse_start")
